@@ -383,10 +383,11 @@ partial def taskEvent (tid : Nat) : M Unit := do
   let saveAct := (← get).action
   -- `e.create_context()`: a fresh context on this task, no action vars
   modify fun w => { w with cur := tid, vars := [], action := false }
+  let before := (← getTask tid).state
   runHooks tid
   modify fun w => { w with cur := saveCur, vars := saveVars, action := saveAct }
   let t ← getTask tid
-  if emitPred t.state (flagOf t Consts.TASK_EMIT_DISABLED false) then
+  if (!emitNeedsUnchangedState || t.state == before) && emitPred t.state (flagOf t Consts.TASK_EMIT_DISABLED false) then
     let m ← createMessage tid
     emit (.gen m)
 
@@ -701,7 +702,10 @@ partial def reviewStep (tid : Nat) (n : Node) : M Bool := do
       let kt ← getTask k.tid
       if kt.state.isPending then
         if (← isReady k.tid) then
-          resume k.tid
+          -- resumed through the queue (`ctx.runtime.push`)
+          setState k.tid .running
+          taskEvent k.tid
+          modify fun w => { w with queue := w.queue ++ [(w.p.pid, k.tid)] }
           return false
       let kt ← getTask k.tid
       if kt.state.isCompleted then count := count + 1
